@@ -54,6 +54,18 @@ type regionSpec struct {
 	CloneFrom uint64 `json:"clone_from,omitempty"`
 	Ver       uint64 `json:"ver,omitempty"`
 	ConfVer   uint64 `json:"conf_ver,omitempty"`
+	// fields the statement does not speak of (a put that differs only in them must disturb nothing)
+	AKeys   int64  `json:"approx_keys,omitempty"`
+	Flow    uint64 `json:"written_bytes,omitempty"`
+	Term    uint64 `json:"term,omitempty"`     // only heartbeats carry a term
+	NilKeys bool   `json:"nil_keys,omitempty"` // empty start / end keys are spelled nil (as decoded from the wire)
+}
+
+func (s *regionSpec) key(k hexkey) []byte {
+	if k == "" && s.NilKeys {
+		return nil
+	}
+	return []byte(k)
 }
 
 func (s *regionSpec) clone() *regionSpec {
@@ -136,15 +148,16 @@ func (s *regionSpec) build(cur *core.RegionInfo) *core.RegionInfo {
 	if s.Via == "clone" && cur != nil {
 		return cur.Clone(s.cloneOptions(cur, leader, pending, down)...)
 	}
-	meta := &metapb.Region{Id: s.ID, StartKey: []byte(s.Start), EndKey: []byte(s.End), RegionEpoch: s.epoch()}
+	meta := &metapb.Region{Id: s.ID, StartKey: s.key(s.Start), EndKey: s.key(s.End), RegionEpoch: s.epoch()}
 	for _, p := range s.Peers {
 		meta.Peers = append(meta.Peers, mkPeer(p))
 	}
 	if s.Via == "hb" {
 		return core.RegionFromHeartbeat(&pdpb.RegionHeartbeatRequest{Region: meta, Leader: leader,
-			PendingPeers: pending, DownPeers: down, ApproximateSize: uint64(s.Size) << 20})
+			PendingPeers: pending, DownPeers: down, ApproximateSize: uint64(s.Size) << 20,
+			ApproximateKeys: uint64(s.AKeys), BytesWritten: s.Flow, Term: s.Term})
 	}
-	return core.NewRegionInfo(meta, leader, core.SetApproximateSize(s.Size),
+	return core.NewRegionInfo(meta, leader, core.SetApproximateSize(s.Size), core.SetApproximateKeys(s.AKeys), core.SetWrittenBytes(s.Flow),
 		core.WithPendingPeers(pending), core.WithDownPeers(down))
 }
 
@@ -156,10 +169,10 @@ func (s *regionSpec) cloneOptions(cur *core.RegionInfo, leader *metapb.Peer, pen
 		opts = append(opts, core.WithNewRegionID(s.ID))
 	}
 	if string(cur.GetStartKey()) != string(s.Start) {
-		opts = append(opts, core.WithStartKey([]byte(s.Start)))
+		opts = append(opts, core.WithStartKey(s.key(s.Start)))
 	}
 	if string(cur.GetEndKey()) != string(s.End) {
-		opts = append(opts, core.WithEndKey([]byte(s.End)))
+		opts = append(opts, core.WithEndKey(s.key(s.End)))
 	}
 	// peers
 	old := map[uint64]*metapb.Peer{}
@@ -209,7 +222,8 @@ func (s *regionSpec) cloneOptions(cur *core.RegionInfo, leader *metapb.Peer, pen
 	}
 	e := s.epoch()
 	opts = append(opts, core.WithLeader(leader), core.WithPendingPeers(pending), core.WithDownPeers(down),
-		core.SetApproximateSize(s.Size), core.SetRegionVersion(e.Version), core.SetRegionConfVer(e.ConfVer))
+		core.SetApproximateSize(s.Size), core.SetApproximateKeys(s.AKeys), core.SetWrittenBytes(s.Flow),
+		core.SetRegionVersion(e.Version), core.SetRegionConfVer(e.ConfVer))
 	return opts
 }
 
